@@ -235,6 +235,8 @@ fn micro_model() -> Model {
     m.cons.materials.push(mat_detailed("ins", 0.04));
     m.cons.wallcons.push(wallcons("wc", &[(uid("ins"), 0.1)]));
     m.walls.push(wall("F", BoundaryType::GROUND, uid("wc"), uid("S1"), None, geom(180.0, 0.0, Some([0.0, 4.0, 0.0]), rect(4.0, 4.0))));
+    // (a second slab on the ground: a category of K with two members)
+    m.walls.push(wall("F2", BoundaryType::GROUND, uid("wc"), uid("S1"), None, geom(180.0, 0.0, Some([4.0, 4.0, 0.0]), rect(2.0, 4.0))));
     m.walls.push(wall("S", BoundaryType::EXTERIOR, uid("wc"), uid("S1"), None, geom(90.0, 0.0, Some([0.0, 0.0, 0.0]), rect(4.0, 3.0))));
     m.windows.push(window("W", nil(), uid("S"), Some([1.0, 1.0]), 1.0, 1.0, 0.1));
     m
